@@ -280,6 +280,10 @@ pub struct TermState {
     pub grid: Grid,
     pub calls: Vec<Call>,
     pub keep_calls: bool,
+    /// the terminal applies what the library writes only when the library flushes (like
+    /// `Term::buffered_stderr()`); output written by others (a suspend closure) is not held back
+    pub buffered: bool,
+    pub pending_bytes: String,
     pub n_calls: u64,
     pub n_queries: u64,
     pub flushes: u64,
@@ -324,6 +328,8 @@ impl SimTerm {
                 grid: Grid::new(w as usize, h as usize),
                 calls: vec![],
                 keep_calls: false,
+                buffered: false,
+                pending_bytes: String::new(),
                 n_calls: 0,
                 n_queries: 0,
                 flushes: 0,
@@ -438,6 +444,40 @@ impl SimTerm {
         s.flush_log.push((f, clock, op, usize::MAX));
     }
 
+    /// Output that does not come from the library (the closure of `suspend`, other programs):
+    /// it reaches the terminal at once, whatever the library still holds in its buffer. Counts
+    /// as a frame for the observers (snapshots, flush hook), not as a call of the library.
+    pub fn external_line(&self, line: &str) {
+        let clock = verif_simrt::sched::clock_ns();
+        let tid = verif_simrt::sched::tid().unwrap_or(usize::MAX);
+        let mut s = self.lock();
+        if s.pty.is_some() {
+            return;
+        }
+        let bytes = format!("{line}\r\n");
+        s.grid.feed(&bytes);
+        if let Some(mut vt) = s.vt.take() {
+            let b = bytes.clone();
+            if let Ok(vt) = std::panic::catch_unwind(std::panic::AssertUnwindSafe(move || {
+                vt.process(b.as_bytes());
+                vt
+            })) {
+                s.vt = Some(vt);
+            }
+        }
+        s.flushes += 1;
+        let (f, op) = (s.flushes, s.cur_op);
+        s.flush_log.push((f, clock, op, tid));
+        if s.snapshot_at_flush {
+            let t = s.grid.transcript();
+            s.snapshots.push((f, t));
+        }
+        if let Some(h) = s.on_flush.clone() {
+            let t = s.grid.transcript();
+            h(f, &t);
+        }
+    }
+
     pub fn is_pty(&self) -> bool {
         self.lock().pty.is_some()
     }
@@ -525,8 +565,15 @@ impl SimTerm {
                     io::ErrorKind::WouldBlock,
                     io::ErrorKind::WriteZero,
                 ];
-                let k = kinds[((idx + s.fault.kind_seed) % kinds.len() as u64) as usize];
-                Err(io::Error::new(k, "injected terminal failure"))
+                // (half of the errors carry an OS error code as a real write(2) failure does:
+                // EIO, EPIPE, EINTR, EAGAIN, ENOSPC)
+                let sel = (idx + s.fault.kind_seed) % (2 * kinds.len() as u64);
+                if sel >= kinds.len() as u64 {
+                    let codes = [5, 32, 4, 11, 28];
+                    Err(io::Error::from_raw_os_error(codes[(sel as usize - kinds.len()) % codes.len()]))
+                } else {
+                    Err(io::Error::new(kinds[sel as usize], "injected terminal failure"))
+                }
             } else {
                 let bytes: String = match &kind {
                     CallKind::Up(0) | CallKind::Down(0) | CallKind::Left(0) | CallKind::Right(0) => String::new(),
@@ -549,6 +596,17 @@ impl SimTerm {
                         s.vt = None;
                     }
                 }
+                let bytes = if s.buffered {
+                    // held back until the library flushes
+                    s.pending_bytes.push_str(&bytes);
+                    if kind == CallKind::Flush {
+                        std::mem::take(&mut s.pending_bytes)
+                    } else {
+                        String::new()
+                    }
+                } else {
+                    bytes
+                };
                 s.grid.feed(&bytes);
                 if let Some(mut vt) = s.vt.take() {
                     // the vt100 crate is only a cross-check of our own grid: if it panics
